@@ -10,6 +10,12 @@ CHECKS = {
  'C10': ('E1 product', 'bounded-exhaustive enumeration of (structure, index subset, listing order, container) against a reference model',
          'Every deletion of every non-empty index subset (every listing order for |S|<=3, three containers) and every pop on chains of up to 6 (quick) / 7 (thorough) atoms with all term kinds, duplicate terms, extra columns, with and without tables, executed on the real Atoms and compared atom-by-atom and term-by-term with RefStructure.delete. Exhaustive within the size bound.',
          'Coverage statement over the stated structure family only; trusted: CPython, numpy, mc/ref/structure.py (self-tested).', '3/C10'),
+ 'C11': ('E1 product', 'bounded-exhaustive enumeration of (A, B, identity map, mode, term direction) against a reference model',
+         'Every pair from 10 base structures (incl. empty, emptied-with-tables, tables-without-terms) x 9 fragments x every injective partial identity map x 5 modes (default merge, explicit offsets, twice, twice re-mapped, shared ids) x forward/reversed term listing, executed on the real Atoms.extend/extend_types and compared with RefStructure.extend (resolved view, table-less ids up to bijection); the argument must stay unmodified. Exhaustive within |A|<=4, |B|<=3 (quick) / 4 (thorough).',
+         'Inside the compatibility domain (both or neither side define coefficient tables). Trusted: numpy, mc/ref/structure.py.', '3/C11'),
+ 'C12': ('E1 product', 'bounded-exhaustive enumeration of (cell, structure, replication triple) against a reference model',
+         'Every (a,b,c) in {1..3}^3 (quick) / {1..4}^3 (thorough) x 5-6 cells (orthorhombic, triclinic both tilt signs, arbitrarily oriented) x 5 structures (impropers, extra columns, no tables, duplicate bond): cell rows, one replica per lattice offset with identical resolved record, terms per image with identical type ids, tables, original untouched, 1x1x1 identity.',
+         'Coverage over the stated menus. Trusted: numpy, mc/ref/structure.py.', '3/C12'),
 }
 
 NOT_YET = {}
